@@ -45,7 +45,7 @@ theorem legit_no_fault_of_canc (c : Case) (f : Nat) : ∀ (l : List Pop) (canc :
       rcases List.mem_cons.mp hm with heq | hm
       · cases heq
       · exact legit_no_fault_of_canc c f rest (g :: canc) hl (List.mem_cons_of_mem _ hf) t a hm
-    | healall t' =>
+    | healall t' k' =>
       simp only [legitFrom] at hl
       rcases List.mem_cons.mp hm with heq | hm
       · cases heq
